@@ -335,9 +335,11 @@ pub fn parse_proj(definition: &str) -> Result<String, Error> {
             elements = elements
                 .iter()
                 .filter(|x| x.as_str() != "inv")
+                // When the entire pipeline is inverted, its steps are written in the opposite
+                // order, so "forward" and "inverse" change places for the directional omissions
                 .map(|x| match x.as_str() {
-                    "omit_fwd" => "omit_inv",
-                    "omit_inv" => "omit_fwd",
+                    "omit_fwd" if pipeline_is_inverted => "omit_inv",
+                    "omit_inv" if pipeline_is_inverted => "omit_fwd",
                     _ => x,
                 })
                 .map(|x| x.to_string())
